@@ -10,6 +10,11 @@ for i, a in enumerate(sys.argv):
     if a == "--prop":
         PROP = sys.argv[i + 1]; del sys.argv[i:i + 2]; break
 
+STREAM = "all"          # --stream basic|share|weighted|all : run only one of the case streams (debugging / replays of one stream)
+for i, a in enumerate(sys.argv):
+    if a == "--stream":
+        STREAM = sys.argv[i + 1]; del sys.argv[i:i + 2]; break
+
 NREG = 4
 
 # ------------------------------------------------------------------ parsing of dumps
@@ -170,6 +175,237 @@ class Gen:
                     b = ni // bs + (1 if ni % bs else 0); sizes[q] = [bs] * (b - 1) + [ni - bs * (b - 1)]
             elif not any(l.startswith("F ") for l in lines): lines.append("F %d 700" % g)   # ids stay unique (all ids < 700)
         return lines
+
+# ------------------------------------------------------------------ sharing stream (C03Heap.v): reference simulation, generator, monitor
+NH = 8          # handles: 0..5 registers, 6 = dataset kept by the CVFolds object, 7 = dataset kept by the DataView
+FD, VD = 6, 7
+
+def py_opt_sizes(n, m):
+    if n == 0: return []
+    b = (n + m - 1) // m; q = n // b; rem = n - b * q
+    return [q + 1] * rem + [q] * (b - rem)
+
+class ShareSim:
+    """The documented sharing discipline of shark::Data, written down independently of the Coq model: batches are objects,
+    containers hold pointers.  Used by the generator (valid arguments, aimed case splits) and by the spec monitor."""
+    def __init__(self, shape0):
+        self.heap = {}; self.nxt = 0; self.shape0 = shape0
+        self.h = [{"ids": [], "si": "()", "sl": "()"} for _ in range(NH)]
+        self.folds = []
+    def cont(self, r): return [list(self.heap[i]) for i in self.h[r]["ids"]]
+    def sizes(self, r): return [len(self.heap[i]) for i in self.h[r]["ids"]]
+    def n(self, r): return sum(self.sizes(r))
+    def refc(self, i): return sum(h["ids"].count(i) for h in self.h)
+    def indep(self, r): return all(self.refc(i) == 1 for i in self.h[r]["ids"])
+    def alloc(self, batches):
+        ids = []
+        for b in batches:
+            self.heap[self.nxt] = list(b); ids.append(self.nxt); self.nxt += 1
+        return ids
+    def loc(self, r, k):
+        for b, sz in enumerate(self.sizes(r)):
+            if k < sz: return b, k
+            k -= sz
+        raise IndexError
+    def chunk(self, szs, l):
+        out = []; p = 0
+        for z in szs: out.append(l[p:p + z]); p += z
+        return out
+    def apply(self, line):
+        """returns 'EXC' when the documented behaviour is the exception of the independence check"""
+        t = line.split(); c = t[0][1]; a = list(map(int, t[1:])); H = self.h
+        if c == "N":
+            r, n, m = a[0], a[1], a[2]; labs = a[3:3 + n]; ids = a[3 + n:3 + 2 * n]
+            H[r] = {"ids": self.alloc(self.chunk(py_opt_sizes(n, 256 if m == 0 else m), list(zip(ids, labs)))), "si": self.shape0, "sl": "()"}
+        elif c == "C": H[a[1]] = {"ids": list(H[a[0]]["ids"]), "si": H[a[0]]["si"], "sl": H[a[0]]["sl"]}
+        elif c == "Z": H[a[0]] = {"ids": [], "si": "()", "sl": "()"}
+        elif c == "I": H[a[1]] = {"ids": [H[a[0]]["ids"][i] for i in a[2:]], "si": H[a[0]]["si"], "sl": H[a[0]]["sl"]}
+        elif c == "K":
+            r, q, tt = a[0], a[1], a[2]; idx = a[3:]; src = H[r]["ids"]
+            H[q] = {"ids": [src[i] for i in idx], "si": H[r]["si"], "sl": H[r]["sl"]}
+            H[tt] = {"ids": [src[i] for i in range(len(src)) if i not in idx], "si": H[r]["si"], "sl": H[r]["sl"]}
+        elif c == "L":
+            r, q, b = a
+            if not self.indep(r): return "EXC"
+            src = H[r]["ids"]
+            H[q] = {"ids": src[b:], "si": H[r]["si"], "sl": H[r]["sl"]}; H[r]["ids"] = src[:b]
+        elif c == "A": H[a[0]]["ids"] = H[a[0]]["ids"] + H[a[1]]["ids"]
+        elif c == "B": H[a[0]]["ids"] = H[a[0]]["ids"] + self.alloc([self.heap[H[a[1]]["ids"][a[2]]]])
+        elif c == "W":
+            b, j = self.loc(a[0], a[1]); self.heap[H[a[0]]["ids"][b]][j] = (a[2], a[3])
+        elif c == "V": self.heap[H[a[0]]["ids"][a[1]]][a[2]] = (a[3], a[4])
+        elif c == "M":
+            if not self.indep(a[0]): H[a[0]]["ids"] = self.alloc(self.cont(a[0]))
+        elif c == "P":
+            if not self.indep(a[0]): return "EXC"
+            H[a[0]]["ids"] = self.alloc(self.chunk(a[1:], flat(self.cont(a[0]))))
+        elif c == "S":
+            r, b, k = a
+            if not self.indep(r): return "EXC"
+            src = self.heap[H[r]["ids"][b]]
+            if 0 < k < len(src): H[r]["ids"] = H[r]["ids"][:b] + self.alloc([src[:k], src[k:]]) + H[r]["ids"][b + 1:]
+        elif c == "O":
+            e = flat(self.cont(a[0])); H[a[0]]["ids"] = self.alloc(self.chunk(self.sizes(a[0]), [e[i] for i in a[1:]]))
+        elif c == "G":
+            r, k, m = a[0], a[1], a[2]; idx = a[3:]; e = flat(self.cont(r))
+            parts = [[e[i] for i in range(len(e)) if idx[i] == p] for p in range(k)]
+            batches = []; self.folds = []
+            for pt in parts:
+                bs = self.chunk(py_opt_sizes(len(pt), m), pt)
+                self.folds.append(list(range(len(batches), len(batches) + len(bs)))); batches += bs
+            H[r]["ids"] = self.alloc(batches)
+            H[FD] = {"ids": list(H[r]["ids"]), "si": H[r]["si"], "sl": H[r]["sl"]}
+        elif c in "TU":
+            q, p = a; src = H[FD]["ids"]; f = self.folds[p]
+            ix = f if c == "U" else [i for i in range(len(src)) if i not in f]
+            H[q] = {"ids": [src[i] for i in ix], "si": H[FD]["si"], "sl": H[FD]["sl"]}
+        elif c == "D": H[VD] = {"ids": list(H[a[0]]["ids"]), "si": H[a[0]]["si"], "sl": H[a[0]]["sl"]}
+        elif c == "E":
+            b, j = self.loc(VD, a[0]); self.heap[H[VD]["ids"][b]][j] = (a[1], a[2])
+        return None
+
+class GenShare:
+    """histories of the sharing stream; every case opens with one of the aimed scenarios (write through a subset that shares
+    with the original, write after makeIndependent, write through a fold's training part, empty containers, single-element
+    batches) and goes on with random operations"""
+    def __init__(self, rng, shape0, big): self.r = rng; self.shape0 = shape0; self.big = big
+    def case(self):
+        r = self.r; sim = ShareSim(self.shape0); lines = ["C %d" % r.randrange(1, 10**6)]
+        nid = [1]; wid = [300]
+        def emit(l):
+            lines.append(l); return sim.apply(l)
+        def new(reg, n=None, m=None):
+            n = n or r.choice([1, 2, 3, 4, 5, 6, 7, 8, 9, 10] + ([14, 17] if self.big else []))
+            m = m if m is not None else r.choice([1, 2, 3, 4, n, n + 1, 0])
+            labs = [r.randrange(3) for _ in range(n)]; ids = list(range(nid[0], nid[0] + n)); nid[0] += n
+            emit("XN %d %d %d %s %s" % (reg, n, m, " ".join(map(str, labs)), " ".join(map(str, ids))))
+        def wr(reg, k=None):
+            k = r.randrange(sim.n(reg)) if k is None else k
+            wid[0] += 1; emit("XW %d %d %d %d" % (reg, k, wid[0], r.randrange(3)))
+        def nonempty(): return [g for g in range(6) if sim.n(g) > 0]
+        sc = r.randrange(7)
+        if sc == 0:     # write through a subset that shares with the original (repeated index: the batch twice in one container)
+            new(0); nb = len(sim.sizes(0))
+            idx = [r.randrange(nb) for _ in range(r.randint(1, nb + 1))]
+            emit("XI 0 1 %s" % " ".join(map(str, idx))); wr(1); wr(0)
+        elif sc == 1:   # write after makeIndependent, on both sides
+            new(0); emit("XC 0 1"); wr(1); emit("XM 1"); wr(1); wr(0); emit("XM 0"); wr(0)
+        elif sc == 2:   # write through a fold's training / validation part, through the dataset of the fold object's owner
+            new(0); n = sim.n(0); k = r.randint(1, min(4, n)); m = r.choice([1, 2, 3, 256])
+            idx = [r.randrange(k) for _ in range(n)]; idx[r.randrange(n)] = k - 1
+            emit("XC 0 2"); emit("XG 0 %d %d %s" % (k, m, " ".join(map(str, idx))))
+            p = r.randrange(k); emit("XT 1 %d" % p)
+            if sim.n(1): wr(1)
+            emit("XU 3 %d" % r.randrange(k))
+            if sim.n(3): wr(3)
+            wr(0); wr(2)
+        elif sc == 3:   # empty containers: empty subset, splice at 0 / at the end, cleared register
+            new(0); emit("XI 0 1"); nb = len(sim.sizes(0)); emit("XL 0 2 %d" % r.choice([0, nb])); emit("XA 1 2"); emit("XZ 3"); emit("XC 3 4"); emit("XM 4")
+            if sim.n(1): wr(1)
+        elif sc == 4:   # single-element batches
+            new(0, m=1); emit("XC 0 1"); wr(1); emit("XK 0 2 3 %s" % " ".join(map(str, r.sample(range(len(sim.sizes(0))), r.randint(0, len(sim.sizes(0)))))))
+            if sim.n(2): wr(2)
+            if sim.n(3): wr(3)
+        elif sc == 5:   # operations that refuse a shared container, then accept it after makeIndependent
+            new(0); emit("XC 0 1"); nb = len(sim.sizes(0))
+            emit("XL 0 2 %d" % r.randint(0, nb)); emit("XS 1 0 %d" % r.randint(0, sim.sizes(1)[0])); emit("XP 0 %d" % sim.n(0))
+            emit("XM 0"); emit("XL 0 2 %d" % r.randint(0, nb)); emit("XS 1 0 %d" % r.randint(0, sim.sizes(1)[0]))
+        else:           # write through a DataView
+            new(0); emit("XD 0"); wid[0] += 1; emit("XE %d %d %d" % (r.randrange(sim.n(0)), wid[0], r.randrange(3))); emit("XM 0")
+            wid[0] += 1; emit("XE %d %d %d" % (r.randrange(sim.n(VD)), wid[0], r.randrange(3))); wr(0)
+        for _ in range(r.randint(4, 22 if not self.big else 45)):
+            ne = nonempty()
+            if not ne: new(r.randrange(6)); continue
+            if sum(len(h["ids"]) for h in sim.h) > 60: emit("XZ %d" % r.choice(ne)); continue
+            g = r.choice(ne); sz = sim.sizes(g); n = sum(sz); nb = len(sz); x = r.random()
+            others = [k for k in range(6) if k != g]
+            if x < 0.06: new(r.randrange(6))
+            elif x < 0.16: emit("XC %d %d" % (g, r.choice(others)))
+            elif x < 0.19: emit("XZ %d" % g)
+            elif x < 0.29: emit("XI %d %d %s" % (g, r.randrange(6), " ".join(str(r.randrange(nb)) for _ in range(r.randint(0, nb + 1)))))
+            elif x < 0.34:
+                q, t = r.sample(others, 2); emit("XK %d %d %d %s" % (g, q, t, " ".join(map(str, r.sample(range(nb), r.randint(0, nb))))))
+            elif x < 0.40: emit("XL %d %d %d" % (g, r.choice(others), r.randint(0, nb)))
+            elif x < 0.46: emit("XA %d %d" % (g, r.choice(others)))
+            elif x < 0.50:
+                q = r.choice(ne); emit("XB %d %d %d" % (g, q, r.randrange(len(sim.sizes(q)))))
+            elif x < 0.66: wr(g)
+            elif x < 0.72:
+                b = r.randrange(nb)
+                if sz[b]: wid[0] += 1; emit("XV %d %d %d %d %d" % (g, b, r.randrange(sz[b]), wid[0], r.randrange(3)))
+            elif x < 0.80: emit("XM %d" % g)
+            elif x < 0.85:
+                parts = []; left = n
+                while left > 0:
+                    pp = r.randint(1, left); parts.append(pp); left -= pp
+                emit("XP %d %s" % (g, " ".join(map(str, parts))))
+            elif x < 0.89:
+                b = r.randrange(nb); emit("XS %d %d %d" % (g, b, r.randint(0, sz[b])))
+            elif x < 0.93:
+                idx = list(range(n))
+                if r.random() < 0.7: r.shuffle(idx)
+                else: idx = [r.randrange(n) for _ in range(n)]
+                emit("XO %d %s" % (g, " ".join(map(str, idx))))
+            elif x < 0.96:
+                k = r.randint(1, min(4, n)); m = r.choice([1, 2, 3, 256]); idx = [r.randrange(k) for _ in range(n)]; idx[r.randrange(n)] = k - 1
+                emit("XG %d %d %d %s" % (g, k, m, " ".join(map(str, idx))))
+            elif x < 0.98 and sim.folds: emit("X%s %d %d" % (r.choice("TU"), r.randrange(6), r.randrange(len(sim.folds))))
+            elif x < 0.99: emit("XD %d" % g)
+            elif sim.n(VD): wid[0] += 1; emit("XE %d %d %d" % (r.randrange(sim.n(VD)), wid[0], r.randrange(3)))
+        return lines
+
+def monitor_share(case, iout, shape0):
+    """spec monitor of the sharing stream: the implementation's output against the documented discipline"""
+    bad = []; sim = None
+    def fail(i, msg): bad.append("line %d `%s`: %s" % (i, case[i][:60], msg))
+    for i, (l, o) in enumerate(zip(case, iout)):
+        t = l.split(); c = t[0]
+        if c == "C": sim = ShareSim(shape0); continue
+        d = fields(o)
+        if "SIGNAL" in d: fail(i, "fatal signal %s in %s" % (o.split("SIGNAL")[1].strip(), c)); break
+        if "STDEXC" in d: fail(i, "non-library exception: " + o.split("->")[1][:80]); break
+        a = list(map(int, t[1:]))
+        before = [sim.cont(h) for h in range(NH)]
+        try:
+            want = sim.apply(l)
+        except (IndexError, KeyError, ValueError):
+            fail(i, "operation outside the generator's domain"); break
+        if want == "EXC":
+            if "EXC" not in d: fail(i, "%s accepted a container that shares batches (documented: exception 'Container is not Independent')" % c)
+            if bad: break
+            continue
+        if "EXC" in d:
+            fail(i, "%s refused with an exception although %s" % (c, "the container is independent" if c[1] in "LPS" else "the operation is inside its documented domain")); break
+        try:
+            obs = [parse_ds(d["H%d" % h]) for h in range(NH)]
+            if any(x is None for x in obs): fail(i, "label batches not aligned with input batches"); break
+            after = [sim.cont(h) for h in range(NH)]
+            isw = c[1] in "WVE"
+            src = VD if c[1] == "E" else a[0]
+            for h in range(NH):
+                if obs[h] == after[h]: continue
+                if isw:
+                    if h == src: fail(i, "the written element is not where it was written :: H%d = %s, expected %s" % (h, obs[h], after[h]))
+                    elif obs[h] == before[h]: fail(i, "write through H%d is not visible through H%d, which holds the same batch object" % (src, h))
+                    elif after[h] == before[h]: fail(i, "write through H%d changed H%d, which shares no batch with it :: %s -> %s" % (src, h, before[h], obs[h]))
+                    else: fail(i, "write through H%d: H%d holds unexpected elements :: %s, expected %s" % (src, h, obs[h], after[h]))
+                elif after[h] == before[h]: fail(i, "%s changed container H%d which is not its target :: %s -> %s" % (c, h, before[h], obs[h]))
+                else: fail(i, "%s: H%d does not hold the documented result :: %s, documented %s" % (c, h, obs[h], after[h]))
+                break
+            if bad: break
+            for h in range(NH):
+                if d.get("hs%d" % h) != sim.h[h]["si"] or d.get("hl%d" % h) != sim.h[h]["sl"]:
+                    fail(i, "%s: element shape of H%d lost or changed :: %s / label %s, expected %s / %s" % (c, h, d.get("hs%d" % h), d.get("hl%d" % h), sim.h[h]["si"], sim.h[h]["sl"])); break
+            if bad: break
+            eq = ",".join("%d%d" % (x, y) for x in range(NH) for y in range(x + 1, NH) if sim.h[x]["ids"] and sim.h[x]["ids"] == sim.h[y]["ids"])
+            eq = eq + "," if eq else "-"
+            if d.get("eqi") != eq or d.get("eql") != eq: fail(i, "operator== (same batch objects) holds for other pairs of containers than documented :: %s / %s, expected %s" % (d.get("eqi"), d.get("eql"), eq)); break
+            if c[1] == "G":
+                folds = ";".join(",".join(map(str, f)) for f in sim.folds)
+                if d.get("folds", "") not in (folds, True if folds == "" else folds): fail(i, "fold batch indices wrong :: %s, expected %s" % (d.get("folds"), folds)); break
+        except (KeyError, IndexError, ValueError, TypeError) as ex:
+            fail(i, "unparsable/incomplete output (%s): %s" % (type(ex).__name__, o[:120])); break
+    return bad
 
 # ------------------------------------------------------------------ state tracking from implementation output
 class Track:
@@ -423,6 +659,32 @@ def valid_case(lines, mout):
         tr.update(fields(o))
     return True
 
+def valid_share(lines, mout):
+    """shrunk candidates of the sharing stream must stay inside the generator's domain"""
+    sim = None
+    for l in lines:
+        t = l.split()
+        if t[0] == "C": sim = ShareSim("()"); continue
+        if sim is None or not t[0].startswith("X"): return False
+        a = list(map(int, t[1:])); c = t[0][1]
+        try:
+            regs = {"N": [], "C": [a[0]], "Z": [], "I": [a[0]], "K": [a[0]], "L": [a[0]], "A": [a[0]], "B": [a[0], a[1]], "W": [a[0]], "V": [a[0]],
+                    "M": [], "P": [a[0]], "S": [a[0]], "O": [a[0]], "G": [a[0]], "T": [], "U": [], "D": [a[0]], "E": [VD]}[c]
+            if any(not sim.h[r]["ids"] for r in regs): return False
+            if c in "TU" and a[1] >= len(sim.folds): return False
+            if c in "WE" and a[0 if c == "E" else 1] >= sim.n(VD if c == "E" else a[0]): return False
+            if c == "V" and (a[1] >= len(sim.sizes(a[0])) or a[2] >= sim.sizes(a[0])[a[1]]): return False
+            if c == "P" and sum(a[1:]) != sim.n(a[0]) or c == "P" and 0 in a[1:]: return False
+            if c == "O" and (len(a[1:]) != sim.n(a[0]) or any(x >= sim.n(a[0]) for x in a[1:])): return False
+            if c == "G" and (len(a[3:]) != sim.n(a[0]) or max(a[3:]) + 1 != a[1]): return False
+            if c in "IK" and any(x >= len(sim.sizes(a[0])) for x in a[(2 if c == "I" else 3):]): return False
+            if c in "L" and a[2] > len(sim.sizes(a[0])): return False
+            if c == "S" and (a[1] >= len(sim.sizes(a[0])) or a[2] > sim.sizes(a[0])[a[1]]): return False
+            if c == "B" and a[2] >= len(sim.sizes(a[1])): return False
+            sim.apply(l)
+        except (IndexError, KeyError, ValueError): return False
+    return True
+
 def truncate_rejects(mout):
     for i, o in enumerate(mout):
         if o.endswith("REJECT"): return i
@@ -440,7 +702,9 @@ def main():
     big = ck.tier == "thorough"
     total_eval = 0; samples = []; distinct = set(); opmix = {}
     types = ["dense", "uint", "sparse"]
+    share_replay = bool(ck.replay) and any(l.startswith("X") for l in open(ck.replay).read().split("\n"))
     for ty in types:
+        if share_replay or STREAM not in ("all", "basic"): break
         tmpd = os.path.join(BUILD, "tmp", PROP, ty)
         gen = Gen(ck.rng, PROP, big)
         ncases = (250 if ty != "sparse" else 120) if not big else (3000 if ty != "sparse" else 1200)
@@ -461,6 +725,23 @@ def main():
             for l in c: opmix[l.split()[0]] = opmix.get(l.split()[0], 0) + 1
         samples.append({"type": ty, "case": cases[-1]})
         if ck.violations: break
+    # ---- sharing stream (C03 only): the heap model of C03Heap.v next to the real containers, every handle observed after every operation
+    if PROP == "C03" and not ck.violations and STREAM in ("all", "share"):
+        for ty in types:
+            shape0 = {"dense": "(2)", "sparse": "(7)", "uint": "()"}[ty]
+            tmpd = os.path.join(BUILD, "tmp", PROP, "share_" + ty); os.makedirs(tmpd, exist_ok=True)
+            gen = GenShare(ck.rng, shape0, big)
+            if ck.replay: cases = [[l for l in open(ck.replay).read().split("\n") if l.strip() and not l.startswith("#")]]
+            else: cases = [gen.case() for _ in range((160 if ty != "sparse" else 80) if not big else (2000 if ty != "sparse" else 800))]
+            if ck.replay and not share_replay: break
+            correspond2(ck, cases, model, exe, ty, tmpd, monitor=lambda c, b, prop, sh=shape0: monitor_share(c, b, sh),
+                        resolve=lambda c, o: list(c), valid_case=valid_share, what="heap model (C03Heap.v) vs shark::LabeledData sharing histories")
+            total_eval += sum(len(c) for c in cases)
+            for c in cases:
+                distinct.add("share|" + ty + "|" + "\n".join(c))
+                for l in c: opmix[l.split()[0]] = opmix.get(l.split()[0], 0) + 1
+            samples.append({"type": ty, "stream": "sharing", "case": cases[-1]})
+            if ck.violations: break
     ck.cov["evaluations"] = total_eval
     ck.cov["distinct_nontrivial"] = len(distinct)
     ck.cov["rule"] = "random operation histories over 4 dataset registers of LabeledData<RealVector|unsigned|CompressedRealVector, unsigned> (create, repartition, splitBatch, splice, append, reorder, shuffle, indexedSubset, splitAtElement, repartitionByClass, binarySubProblem, element/iterator access, view->dataset, view subset of subset->dataset, transform%s); element counts 1..17 (40 thorough) aimed at n mod max in {0,1,max-1}, labels with absent classes; distinct = distinct (type, history)" % (", all six CV fold constructors through the model's cv_create/scv_create (createCVIID with the drawn folds read back), validation(i)/training(i) of every fold, element shapes of the set and of every part for the input and the label container" if PROP == "C12" else "")
@@ -468,8 +749,9 @@ def main():
     ck.notes["op_mix"] = opmix
     ck.finish()
 
-def correspond2(ck, cases, model, exe, ty, tmpd):
+def correspond2(ck, cases, model, exe, ty, tmpd, monitor=None, resolve=None, valid_case=None, what="C03/C12 model vs shark::LabeledData"):
     """impl first, then resolve random choices, then model; decision as in vlib.correspond"""
+    monitor = monitor or globals()["monitor"]; resolve = resolve or globals()["resolve"]; valid_case = valid_case or globals()["valid_case"]
     io = run_cases(exe, cases, os.path.join(tmpd, "impl_in.txt"), args=(ty,))
     mcases = []
     for c, (o, rc, e) in zip(cases, io):
@@ -497,7 +779,7 @@ def correspond2(ck, cases, model, exe, ty, tmpd):
     def keyof(msg):
         mc = re.match(r"implementation crashed \(rc=(-?\d+)\) at line \d+ `(\w+)", msg)
         if mc: return "%s:%s:crash rc=%s" % (ty, mc.group(2), mc.group(1))
-        key0 = re.sub(r"line \d+ `[^`]*`: ", "", msg)
+        key0 = re.sub(r"line \d+ `[^`]*`: ", "", msg).split(" :: ")[0]      # (data details after " :: " are not part of the key)
         opk = re.search(r"`(\w+)", msg)
         return "%s:%s:%s" % (ty, opk.group(1) if opk else "?", re.sub(r"\d+", "N", key0))
     def report(ci, is_mon, want_key=None):
@@ -523,8 +805,8 @@ def correspond2(ck, cases, model, exe, ty, tmpd):
         ck.violation(key, rp, "spec monitor fails on the implementation [%s]: %s" % (ty, msg))
     if not mon and dis:
         rp, m = report(dis[0], False)
-        ck.violation("correspondence", rp, "correspondence C03/C12 model vs shark::LabeledData [%s] no longer checks (%d cases differ); spec monitor passes on every explored input" % (ty, len(dis)), no_input=True)
-    ck.oblige("correspondence model=implementation [%s] on %d histories" % (ty, len(cases)), not mon and not dis,
+        ck.violation("correspondence", rp, "correspondence %s [%s] no longer checks (%d cases differ); spec monitor passes on every explored input" % (what, ty, len(dis)), no_input=True)
+    ck.oblige("correspondence %s [%s] on %d histories" % (what, ty, len(cases)), not mon and not dis,
               "%d monitor failures, %d disagreements" % (len(mon), len(dis)))
     return {"mon": len(mon), "dis": len(dis)}
 
